@@ -465,13 +465,13 @@ mod imp {
     /// (its tasks on the workers), the harness actions run concurrently in the same `block_on`
     /// with a generated number of yields in between. Deadlock verdict: every action is done, the
     /// join has not finished and nothing (no task poll, no source poll, no harness action) has
-    /// happened for 5 s (polls of the join itself do not count: the driver re-polls it whenever the
-    /// harness loop wakes up); once one deadlock has been confirmed that way, later ones in the same
-    /// process are declared after 300 ms of silence so that shrinking stays affordable.
+    /// happened for 20 s (polls of the join itself do not count: the driver re-polls it whenever the
+    /// harness loop wakes up), and `run_scenario` sees that in three executions of the case in a row;
+    /// once one deadlock has been confirmed that way, the idle limit in the same process drops to 3 s
+    /// so that shrinking stays affordable.
     #[cfg(feature = "multi-threading")]
     fn drive<T>(fut: Pin<Box<dyn Future<Output = T> + '_>>, world: &Shared, plan: &Plan, src: &mut Src<'_>) -> Stop<T> {
         use std::time::{Duration, Instant};
-        static CONFIRMED: AtomicBool = AtomicBool::new(false);
         thread_local! {
             static RT: tokio::runtime::Runtime = tokio::runtime::Builder::new_multi_thread().worker_threads(2).enable_time().build().unwrap();
         }
@@ -496,9 +496,8 @@ mod imp {
                             if c != last.0 {
                                 last = (c, Instant::now());
                             } else {
-                                let limit = if CONFIRMED.load(Ordering::SeqCst) { Duration::from_secs(3) } else { Duration::from_secs(20) };
+                                let limit = if MT_CONFIRMED.load(Ordering::SeqCst) { Duration::from_secs(3) } else { Duration::from_secs(20) };
                                 if last.1.elapsed() > limit {
-                                    CONFIRMED.store(true, Ordering::SeqCst);
                                     return;
                                 }
                             }
@@ -590,8 +589,16 @@ mod imp {
         Tried(Result<Vec<u64>, u64>),
     }
 
+    thread_local! {
+        static MT_RETRY: std::cell::Cell<u32> = const { std::cell::Cell::new(0) };
+    }
+    /// set once a violation was seen under e4 (a deadlock confirmed by three stalled executions of
+    /// one case, or any other violation): from then on the idle limit is 3 s instead of 20 s
+    static MT_CONFIRMED: AtomicBool = AtomicBool::new(false);
+
     fn run_scenario(env: &Env, sc: &Scenario, src: &mut Src<'_>) -> CaseResult {
         let n = sc.n;
+        let (src_all, src_start) = (src.all(), src.used());
         let mut world = World::new(n, sc.w);
         for i in 0..n {
             world.tasks[i].err = sc.errs[i];
@@ -641,15 +648,36 @@ mod imp {
         let vname = sc.variant.name();
         match stop {
             Stop::Violation => {
+                if MT {
+                    // the run ends with exit 1 anyway: keep the remaining cases and shrinking affordable
+                    MT_CONFIRMED.store(true, Ordering::SeqCst);
+                }
                 let (sig, msg) = g.violation.clone().unwrap();
                 known_or_violation(env, &format!("{sig}:{vname}"), msg, case())?;
             }
+            Stop::Stuck if MT && MT_RETRY.with(|r| r.get()) < 2 => {
+                // Under e4 the verdict is idle-based, i.e. it depends on the OS scheduling the
+                // runtime's workers. It only counts when the same case (same harness choices)
+                // stalls in three executions in a row; a stall that does not repeat is a label.
+                drop(g);
+                MT_RETRY.with(|r| r.set(r.get() + 1));
+                let mut again = Src::new(src_all);
+                for _ in 0..src_start {
+                    again.raw();
+                }
+                let r = run_scenario(env, sc, &mut again);
+                MT_RETRY.with(|r| r.set(r.get() - 1));
+                return r.map(|ok| ok.label("mt:stall-not-reproduced"));
+            }
             Stop::Stuck => {
+                if MT {
+                    MT_CONFIRMED.store(true, Ordering::SeqCst);
+                }
                 let not_done: Vec<usize> = (0..n).filter(|&i| !g.tasks[i].done && !g.tasks[i].never).collect();
                 known_or_violation(
                     env,
                     &format!("deadlock:{vname}"),
-                    format!("{}: all gates are open and the source is released, yet the join has not finished (tasks not completed: {not_done:?})", if MT { "every harness action is done and nothing was polled for the idle limit (5 s)" } else { "the join is not woken and nothing is left to do" }),
+                    format!("{}: all gates are open and the source is released, yet the join has not finished (tasks not completed: {not_done:?})", if MT { "every harness action is done and nothing was polled for the idle limit (20 s; 3 s once a deadlock was confirmed), in three executions of the case in a row" } else { "the join is not woken and nothing is left to do" }),
                     case(),
                 )?;
             }
